@@ -78,6 +78,11 @@ def gen_cases(tier, seed):
                           "zero_backoff": (i // n) % 3 == 1})  # a policy of no delay: the retry goes straight back to the queue
             i += n
 
+    # directed: retries without back-off on every broker, the AMQP fake handing the new copy out before it confirms the publish
+    retry_cells = [dict(c) for c in cells if c["o"] in ("raise:ValueError", "raise:KeyError", "timeout", "eager:retry:", "eager:force_retry:") and c["pos"] in ("first", "middle") and c["N"] >= 1 and not c["rec"]]
+    for kind in ("rabbit", "redis", "mem"):
+        for tl_ in (3, 1000):
+            cases.append({"kind": kind, "conv": "basic", "tl": tl_, "cells": [dict(c) for c in retry_cells[: 14]], "seed": 7 + 20 * tl_, "zero_backoff": True, "dbc": "always"})
     if tier == "quick":
         forced = [c for c in cells if (c["o"] in ("lostargs", "raise:Unprintable") or c["o"].startswith("cancel_eager")) and c["pos"] == "first" and (not c["o"].startswith("cancel_eager") or (c["N"] == 1 and c["store"]))]
         groups(rnd.sample(cells, 420) + [dict(c) for c in forced], "mem", "basic")
@@ -214,7 +219,8 @@ async def scenario(loop, case, out, stats, fps, samples):
     stats["runs_without_a_results_broker" if no_rb else "runs_with_a_results_broker"] += 1
     if no_rb:
         case["cells"] = [c for c in case["cells"] if not (c["o"].endswith(":res") or c["o"].endswith(":exc"))]
-    w = World(loop, kind, converter=case["conv"], seed=case["seed"], latency=None if kind == "mem" else 0.001, magic=magic, result_bucket=not no_rb)
+    w = World(loop, kind, converter=case["conv"], seed=case["seed"], latency=None if kind == "mem" else 0.001, magic=magic, result_bucket=not no_rb,
+              amqp_opts={"deliver_before_confirm": case["dbc"]} if case.get("dbc") and kind == "rabbit" else None)
     try:
         await w.open()
         step = 0.0 if case.get("zero_backoff") else POLICY_STEP
